@@ -39,8 +39,12 @@ def main():
 
             def run_demo(leaks):
                 if demo.endswith('.c'):
-                    b = sh('cd %s && clang -g -O1 -fsanitize=address -DOPENFEC_LITTLE_ENDIAN -DNDEBUG -w -Isrc/lib_common -Isrc %s '
-                           '$(find src -name "*.c" | grep -v ldpc_from_file) -lm -o /tmp/%s.demo 2>&1 | tail -3' % (wt, demo, os.path.basename(wt)))
+                    # a demonstration that needs a unit's static data #includes that unit: leave it out of the source list
+                    import re
+                    inc = re.findall(r'#include\s+"(src/[^"]+\.c)"', open(demo).read())
+                    excl = ''.join(" | grep -v '%s'" % x for x in inc)
+                    b = sh('cd %s && clang -g -O1 -fsanitize=address -DOPENFEC_LITTLE_ENDIAN -DNDEBUG -w -Isrc/lib_common -Isrc -I. %s '
+                           '$(find src -name "*.c" | grep -v ldpc_from_file%s) -lm -o /tmp/%s.demo 2>&1 | tail -3' % (wt, demo, excl, os.path.basename(wt)))
                     r = sh('cd %s && ASAN_OPTIONS=detect_leaks=%d timeout 600 /tmp/%s.demo' % (wt, leaks, os.path.basename(wt)))
                     os.path.exists('/tmp/%s.demo' % os.path.basename(wt)) and os.unlink('/tmp/%s.demo' % os.path.basename(wt))
                     return r.returncode, (b.stdout + r.stdout)[-600:]
